@@ -1,6 +1,7 @@
 import OrdModel.Proofs.IndexMiscNoPanicChain
 import OrdModel.Proofs.IndexMiscNoPanicSats
 import OrdModel.Proofs.IndexMiscNoPanicInputs
+import OrdModel.Proofs.IndexMiscNoPanicLift
 import OrdModel.Index.PanicSitesExpected
 import OrdModel.Generated.PanicSites
 /-
@@ -46,6 +47,24 @@ theorem c16_no_failure_runes_partial (chain : List Block) (h : Valid.validChain 
     (∀ s, run cfg chain = .panic s → s ∈ runeResidualSites) :=
   have w := runFrom_runesOnly_within cfg hcfg chain {} (validChain_runeSafe chain h)
   ⟨fun _ => w.not_err, fun _ hs => w.panic_mem hs⟩
+
+/-- A valid chain satisfies the hypotheses of the rune lift (C08 at chain level): blocks consecutive
+from height 0 with at most 2^32 transactions, no txid twice, every etching's supply in range. -/
+theorem c16_validChain_lotChainOK (chain : List Block) (h : Valid.validChain chain = true) :
+    RuneLift.LotChainOK chain := validChain_lotChainOK chain h
+
+/-- **FULL for rune-only configurations**: with only the rune index on, indexing a valid chain
+neither returns an error nor panics.  (`c16_no_failure_runes_partial` leaves the three
+supply-conservation sites; the rune lift `RuneLift.run_noLot_runesOnly` — C08 conservation in
+every reachable state — excludes them.) -/
+theorem c16_no_failure_runes (chain : List Block) (h : Valid.validChain chain = true)
+    (cfg : Cfg) (hcfg : cfg.runesOnly) :
+    (∀ e, run cfg chain ≠ .err e) ∧ (∀ s, run cfg chain ≠ .panic s) := by
+  obtain ⟨he, hp⟩ := c16_no_failure_runes_partial chain h cfg hcfg
+  refine ⟨he, fun s hs => ?_⟩
+  have hmem := hp s hs
+  have hno := RuneLift.run_noLot_runesOnly cfg hcfg chain (validChain_lotChainOK chain h) s hs
+  exact hno (RuneLift.lotSites_eq ▸ hmem)
 
 /-- Clause (b), all inputs: `index_transaction_sats` never hits `expect("insufficient inputs for
 transaction outputs")` when the outputs claim at most the value of the input ranges. -/
